@@ -47,3 +47,46 @@ package annotations
 //@   ensures svc:    c.options.DynamicConfig.CrossNamespaceServices == (lower(mapperValue(d.mapper, "cross-namespace-services")) == "allow")
 //@   ensures static: c.options.DynamicConfig.StaticCrossNamespaceSecrets == old(c.options.DynamicConfig.StaticCrossNamespaceSecrets)
 //@ end
+
+// ---------------------------------------------------------------------------
+// C19 — disabled snippet keywords
+
+//@ spec func space(c int) bool = c == 9 || c == 10 || c == 11 || c == 12 || c == 13 || c == 32
+
+//@ global invariant asciiTable: forall c int :: 0 <= c && c < 256 ==> asciiSpace[c] == (space(c) ? 1 : 0)
+
+// the package initializer establishes the table (and nothing else stores to it)
+//@ func init
+//@   props C19
+//@ end
+
+// firstToken(s) is the maximal run of non-blank bytes after the leading blanks
+//@ func firstToken
+//@   props C19
+//@   pure
+//@   ensures token: exists a int, b int :: 0 <= a && a <= b && b <= len(s) && result == s[a:b]
+//@       && (forall i int :: 0 <= i && i < a ==> space(s[i])) && (a < len(s) ==> !space(s[a]))
+//@       && (forall i int :: a <= i && i < b ==> !space(s[i])) && (b == len(s) || space(s[b]))
+//@   loop 1 invariant lead: 0 <= start && start <= len(s) && forall i int :: 0 <= i && i < start ==> space(s[i])
+//@   loop 2 invariant body: 0 <= start && start <= end && end <= len(s) && (forall i int :: 0 <= i && i < start ==> space(s[i]))
+//@       && (start < len(s) ==> !space(s[start])) && forall i int :: start <= i && i < end ==> !space(s[i])
+//@ end
+
+// a config-backend snippet is kept only if no disabled keyword is the first
+// token of any of its lines, and never when "*" is disabled
+//@ func (*updater).buildBackendCustomConfig
+//@   props C19
+//@   requires wf: d != nil && mapperWF(d.mapper) && d.backend != nil && c.options != nil
+//@   modifies d.backend.CustomConfig
+//@   ensures either:  d.backend.CustomConfig == old(d.backend.CustomConfig) || d.backend.CustomConfig == lines
+//@   ensures guarded: d.backend.CustomConfig != old(d.backend.CustomConfig) ==>
+//@       forall j int :: 0 <= j && j < len(c.options.DisableKeywords) && c.options.DisableKeywords[j] != "" ==>
+//@           c.options.DisableKeywords[j] != "*" &&
+//@           forall l int :: 0 <= l && l < len(lines) ==> firstToken(lines[l]) != c.options.DisableKeywords[j]
+//@   ensures source:  d.backend.CustomConfig != old(d.backend.CustomConfig) ==> len(lines) > 0
+//@   loop 1 invariant keep: d.backend.CustomConfig == old(d.backend.CustomConfig) && 0 <= $idx(1) && $idx(1) <= len(c.options.DisableKeywords)
+//@   loop 1 invariant kws:  forall j int :: 0 <= j && j < $idx(1) && c.options.DisableKeywords[j] != "" ==>
+//@           c.options.DisableKeywords[j] != "*" &&
+//@           forall l int :: 0 <= l && l < len(lines) ==> firstToken(lines[l]) != c.options.DisableKeywords[j]
+//@   loop 2 invariant lns:  0 <= $idx(2) && $idx(2) <= len(lines) && forall l int :: 0 <= l && l < $idx(2) ==> firstToken(lines[l]) != keyword
+//@ end
